@@ -402,7 +402,8 @@ func readX(wire []byte) string {
 		if err != nil {
 			if err.Error() == "EOF" {
 				// the stream ended on a frame boundary; inside a HEADERS/CONTINUATION sequence that is still incomplete
-				if openHeaderBlock(wire) {
+				// (io.ReadFull also reports plain EOF when a frame header is complete and no payload byte follows)
+				if !wholeFrames(wire) || openHeaderBlock(wire) {
 					out = append(out, "E:short")
 				}
 				break
@@ -430,7 +431,7 @@ func openHeaderBlock(wire []byte) bool {
 	for len(wire) >= 9 {
 		l := int(wire[0])<<16 | int(wire[1])<<8 | int(wire[2])
 		if len(wire) < 9+l {
-			return false
+			return open
 		}
 		if wire[3] == 1 || wire[3] == 9 {
 			open = wire[4]&4 == 0
